@@ -268,7 +268,9 @@ class Ctx:
     def finish(self, level="model_checking", confirm=None, coverage_extra=None, confirm_batch=None):
         """Confirm candidates, match known findings, write evidence, exit."""
         known = load_known()
-        vdir = os.path.join(VERIF, "violations", self.prop)
+        # development runs against a modified copy (bin/seed-eval, bin/try-mutant) must not touch the committed evidence
+        outroot = os.path.join(self.scratch, "out") if os.environ.get("VERIF_NO_EVIDENCE") else VERIF
+        vdir = os.path.join(outroot, "violations", self.prop)
         confirmed = []
         unreproduced = 0
         seen = set()
@@ -359,8 +361,8 @@ class Ctx:
             "wall_s": round(time.time() - self.t0, 1),
             "violations": len(violations),
         }
-        os.makedirs(os.path.join(VERIF, "evidence"), exist_ok=True)
-        json.dump(ev, open(os.path.join(VERIF, "evidence", self.prop + ".json"), "w"), indent=1, sort_keys=True)
+        os.makedirs(os.path.join(outroot, "evidence"), exist_ok=True)
+        json.dump(ev, open(os.path.join(outroot, "evidence", self.prop + ".json"), "w"), indent=1, sort_keys=True)
         log("%s %s: evaluations=%d nontrivial=%d states=%d traces=%d violations=%d known=%d unreproduced=%d wall=%.1fs" % (
             self.prop, self.tier, self.evaluations, self.nontrivial, self.states, self.traces,
             len(violations), sum(v[1] for v in matched.values()), unreproduced, ev["wall_s"]))
